@@ -229,3 +229,14 @@ def dataclass_default_insts(ctx, cls: str, rid: str, written: Optional[set] = No
                                     f"never set it (built in memory, converted) is written with a value of the wrong type",
                                     construct=f"{k.split('.')[-1]}.{st.target.id}: {ann} = {v!r}"))
     return insts
+
+
+def as_dict(n):
+    """a dict display, whichever way it is written: {"a": x} as it stands, dict(a=x) (the spelling the model canonicalises
+    identifier-keyed displays to) as the equivalent ast.Dict; None for anything else"""
+    if isinstance(n, ast.Dict):
+        return n
+    if isinstance(n, ast.Call) and isinstance(n.func, ast.Name) and n.func.id == "dict" and not n.args and n.keywords and all(k.arg for k in n.keywords):
+        return ast.copy_location(ast.Dict(keys=[ast.copy_location(ast.Constant(value=k.arg), k.value) for k in n.keywords],
+                                          values=[k.value for k in n.keywords]), n)
+    return None
